@@ -48,17 +48,26 @@ fn runtime_ctx() -> Runtime<Ctx<HostCtx>> {
 fn quiet<T>(f: impl FnOnce() -> T) -> T {
     use std::io::Write;
     let _ = std::io::stdout().flush();
-    unsafe {
+    /// puts stdout back also when `f` panics (a panicking runner is caught and reported per case)
+    struct Restore(i32, i32);
+    impl Drop for Restore {
+        fn drop(&mut self) {
+            use std::io::Write;
+            let _ = std::io::stdout().flush();
+            unsafe {
+                libc::dup2(self.0, 1);
+                libc::close(self.0);
+                libc::close(self.1);
+            }
+        }
+    }
+    let _restore = unsafe {
         let saved = libc::dup(1);
         let null = libc::open(c"/dev/null".as_ptr(), libc::O_WRONLY);
         libc::dup2(null, 1);
-        let r = f();
-        let _ = std::io::stdout().flush();
-        libc::dup2(saved, 1);
-        libc::close(saved);
-        libc::close(null);
-        r
-    }
+        Restore(saved, null)
+    };
+    f()
 }
 
 // ---------------------------------------------------------------- generator
@@ -99,7 +108,9 @@ struct Case {
 }
 
 const NAMES: [&str; 12] = ["a", "b", "x", "main", "check", "t1", "Z", "_u", "ab", "a_b", "test_x", "b2"];
-const MODS: [&str; 7] = ["m", "util", "sub", "zz", "t_", "tests", "xpkg"];
+/// module names; `pkg` is the root's own name: a submodule may be called that too (a directory
+/// `pkg/` with a `mod.roto`), and its items then have keys `pkg.pkg.…`, names `pkg.…`
+const MODS: [&str; 8] = ["m", "util", "sub", "zz", "t_", "tests", "xpkg", "pkg"];
 
 fn effect(cli: bool, id: u32) -> String {
     if cli { format!("print(\"<<T{id}>>\");") } else { format!("emit({id});") }
@@ -354,11 +365,34 @@ fn boundary_api(k: u64) -> Option<Case> {
         14 => Some(counted(&[&[]], 256, 5)),
         15 => Some(counted(&DEEP, 256, 0)),
         16 => Some(counted(&DEEP, 0, 40)),
+        // a submodule named like the root (`pkg`): its items have the keys `pkg.pkg.…` and the
+        // names `pkg.…`, which look like the qualified spelling of the root's items.
+        // one block name in the root (accepts) and in `pkg` (rejects); `entry` only in `pkg`
+        17 => c(vec![
+            bm(&[], vec![bt("check", 1, true), bf("check", 2)]),
+            bm(&["pkg"], vec![bt("check", 3, false), bf("entry", 4)]),
+        ]),
+        // the other way round, and `pkg` inside `pkg`
+        18 => c(vec![
+            bm(&[], vec![bt("check", 1, false)]),
+            bm(&["pkg"], vec![bt("check", 2, true), bf("start", 5)]),
+            bm(&["pkg", "pkg"], vec![bt("check", 3, true), bf("start", 4)]),
+        ]),
+        // a block that exists only in `pkg` (nothing of that name in the root)
+        19 => c(vec![bm(&[], vec![bf("helper", 1)]), bm(&["pkg"], vec![bt("only_here", 2, false)])]),
+        // `pkg` below another module and a module below `pkg` that mirrors a root-level one
+        20 => c(vec![
+            bm(&[], vec![bt("a", 1, true)]),
+            bm(&["m"], vec![bt("a", 2, true)]),
+            bm(&["m", "pkg"], vec![bt("a", 3, false)]),
+            bm(&["pkg"], vec![bf("a", 4), bt("b", 5, true)]),
+            bm(&["pkg", "m"], vec![bt("a", 6, true), bf("go", 7)]),
+        ]),
         _ => None,
     }
 }
 
-const N_API_BOUNDARY: u64 = 17;
+const N_API_BOUNDARY: u64 = 21;
 
 fn api_case_for(seed: u64, idx: u64) -> Case {
     match boundary_api(idx) {
@@ -387,7 +421,7 @@ fn file_tree(case: &Case) -> FileTree {
             .collect();
         let (fname, module) = match m.path.last() {
             None => ("pkg.roto".to_string(), "pkg".to_string()),
-            Some(last) => (format!("{}.roto", m.path.join("/")), last.clone()),
+            Some(last) => (disk_path(case, m).trim_start_matches("script/").to_string(), last.clone()),
         };
         let f = sf(&fname, &module, m.src(false));
         if kids.is_empty() && !m.path.is_empty() { FileSpec::File(f) } else { FileSpec::Directory(f, kids) }
@@ -402,7 +436,9 @@ fn disk_path(case: &Case, m: &ModGen) -> String {
         return "script/pkg.roto".to_string();
     }
     let has_children = case.mods.iter().any(|g| g.path.len() == m.path.len() + 1 && g.path[..m.path.len()] == m.path[..]);
-    if has_children { format!("script/{}/mod.roto", m.path.join("/")) } else { format!("script/{}.roto", m.path.join("/")) }
+    // a module called `pkg` cannot be a file `pkg.roto`: file discovery reserves that file name (and
+    // `mod.roto`) at every level of the package directory — it is a directory `pkg/` with a `mod.roto`
+    if has_children || m.path.last().is_some_and(|l| l == "pkg" || l == "mod") { format!("script/{}/mod.roto", m.path.join("/")) } else { format!("script/{}.roto", m.path.join("/")) }
 }
 
 fn case_json(case: &Case, cli: bool) -> Value {
@@ -781,6 +817,54 @@ fn api_case(rep: &mut Report, drv: &mut Model, seed: u64, idx: u64) {
             }
         }
     }
+    // ---- other spellings of the same names: the qualified form `pkg.<path>.<f>` and the name with
+    // its first segment dropped.  What they resolve to is decided by the table alone (names are
+    // paths from the root: the key is `pkg.` + name): the function of a submodule called `pkg` /
+    // of the root, or nothing.  Compared with that and with the generated model.
+    let fn_by_key: BTreeMap<String, &FnDecl> =
+        case.mods.iter().flat_map(|m| m.fns().into_iter().map(move |f| (m.key(&f.name), f))).collect();
+    let mut probes: Vec<String> = vec![];
+    for k in fn_by_key.keys() {
+        probes.push(k.clone()); // `pkg.<path>.<f>` as a NAME
+        if let Some((_, rest)) = k["pkg.".len()..].split_once('.') {
+            probes.push(rest.to_string());
+        }
+    }
+    probes.sort();
+    probes.dedup();
+    for name in probes.iter().take(12) {
+        let expect = fn_by_key.get(&format!("pkg.{name}"));
+        take_log();
+        let real = match pkg.get_function::<fn()>(name) {
+            Ok(g) => {
+                g.call();
+                let l = take_log();
+                match l.as_slice() {
+                    [id] => fn_by_key.iter().find(|(_, f)| f.id == *id).map(|(k, _)| format!("ok {}", hex(k))).unwrap_or(format!("ok ?{id}")),
+                    _ => format!("ok ?{l:?}"),
+                }
+            }
+            Err(e) => if e.to_string().contains("does not exist") { "missing".to_string() } else { "mistyped".to_string() },
+        };
+        let want = match expect {
+            None => "missing".to_string(),
+            Some(f) if f.ret_i32 => "mistyped".to_string(),
+            Some(_) => format!("ok {}", hex(&format!("pkg.{name}"))),
+        };
+        rep.hist("get_function spelling", if expect.is_some() { "names a function" } else { "names nothing" });
+        if real != want {
+            rep.violation(
+                &format!("get_function(\"{name}\") does not resolve the name as a path from the root of the package"),
+                "get_function resolves a name to another module's function",
+                json!({"case": cj, "name": name, "real": real.replace("ok ", "ok 0x"), "expected": want.replace("ok ", "ok 0x"),
+                    "expected_key": format!("pkg.{name}")}),
+            );
+        }
+        let lean = drv.ask(rep, format!("c19 getfn e {} {}", hex(name), entries(&case).join(" ")).trim_end());
+        if lean.as_ref().is_some_and(|l| *l != real) {
+            rep.mismatch("model get_function differs on a qualified / shortened name", json!({"case": cj, "name": name, "real": real, "lean": lean}));
+        }
+    }
     let sig: Vec<String> = all_tests.iter().map(|(k, t)| format!("{}{}", k, if t.accept { '+' } else { '-' })).collect();
     rep.class(format!("run|{}|{}", nmods, sig.join(",")));
     rep.hist("outcome", if r1.is_ok() { "run_tests Ok" } else { "run_tests Err" });
@@ -832,6 +916,23 @@ fn gen_cli(p: &mut Prng) -> CliCase {
     if p.chance(1, 5) {
         entry_name = p.pick(&["start", "go", "x9"]).to_string();
         function = Some(entry_name.clone());
+    }
+    // the entry may be named by a path: a function of a submodule, the root's entry spelled with
+    // the root's own name in front (names nothing, unless a submodule is called `pkg` and has it),
+    // or a path into a module that does not have it
+    if directory && p.chance(1, 3) {
+        let subs: Vec<String> = case
+            .mods
+            .iter()
+            .filter(|m| !m.path.is_empty())
+            .flat_map(|m| m.fns().into_iter().map(move |f| format!("{}.{}", m.path.join("."), f.name)))
+            .collect();
+        let first_sub = case.mods.iter().find(|m| !m.path.is_empty()).map(|m| m.path.join("."));
+        function = Some(match (p.below(3), first_sub) {
+            (0, _) if !subs.is_empty() => p.pick(&subs).clone(),
+            (1, _) | (_, None) => format!("pkg.{entry_name}"),
+            (_, Some(m)) => format!("{m}.{entry_name}"),
+        });
     }
     let entry = format!("fn {entry_name}() {{\n    print(\"<<ENTRY>>\");\n}}\n");
     match situation {
@@ -888,11 +989,11 @@ fn gen_cli(p: &mut Prng) -> CliCase {
 /// truncated to, on packages whose test blocks live only below the root, and `check`/`run` on
 /// scripts with rejecting blocks (which must not matter to them).  The last entry has 65536 blocks.
 fn boundary_cli(k: u64) -> Option<CliCase> {
-    let mk = |situation: String, cmd: &'static str, case: Case, directory: bool| {
+    let mkf = |situation: String, cmd: &'static str, case: Case, directory: bool, function: Option<&str>| {
         Some(CliCase {
             situation,
             cmd,
-            function: None,
+            function: function.map(|f| f.to_string()),
             case,
             root_extra: "fn main() {\n    print(\"<<ENTRY>>\");\n}\n".to_string(),
             directory,
@@ -903,6 +1004,7 @@ fn boundary_cli(k: u64) -> Option<CliCase> {
             entry_name: "main".to_string(),
         })
     };
+    let mk = |situation: String, cmd: &'static str, case: Case, directory: bool| mkf(situation, cmd, case, directory, None);
     const COUNTS: [u32; 7] = [0, 1, 2, 255, 256, 257, 512];
     if (k as usize) < COUNTS.len() {
         let n = COUNTS[k as usize];
@@ -920,11 +1022,22 @@ fn boundary_cli(k: u64) -> Option<CliCase> {
         8 => mk("256 rejecting blocks".into(), "run", counted(&[&[]], 256, 0), false),
         9 => mk("blocks only below the root, deepest rejects".into(), "run", boundary_api(0).unwrap(), true),
         10 => mk("65536 rejecting blocks".into(), "test", counted(&[&[]], 65536, 0), false),
+        // a submodule called `pkg` (keys `pkg.pkg.…`, names `pkg.…`): its blocks run, its functions
+        // are the entry points `pkg.<f>`, and `pkg.<f>` is NOT the root's `<f>`
+        11 => mk("submodule called pkg, its block rejects".into(), "test", boundary_api(17).unwrap(), true),
+        12 => mk("submodule called pkg, the root's block rejects".into(), "test", boundary_api(18).unwrap(), true),
+        13 => mk("a block only in the submodule called pkg".into(), "test", boundary_api(19).unwrap(), true),
+        14 => mkf("entry pkg.main: main is in the root, not in the submodule called pkg".into(), "run", boundary_api(17).unwrap(), true, Some("pkg.main")),
+        15 => mkf("entry pkg.entry in the submodule called pkg".into(), "run", boundary_api(17).unwrap(), true, Some("pkg.entry")),
+        16 => mkf("entry pkg.pkg.start two levels down".into(), "run", boundary_api(18).unwrap(), true, Some("pkg.pkg.start")),
+        17 => mkf("entry m.main: no such module".into(), "run", boundary_api(17).unwrap(), true, Some("m.main")),
+        18 => mkf("entry pkg.m.go in a module below pkg".into(), "run", boundary_api(20).unwrap(), true, Some("pkg.m.go")),
+        19 => mk("pkg below m, m below pkg".into(), "test", boundary_api(20).unwrap(), true),
         _ => None,
     }
 }
 
-const N_CLI_BOUNDARY: u64 = 18;
+const N_CLI_BOUNDARY: u64 = 27;
 /// the 65536-block case: skipped by the quick tier (it is index 17 in every tier)
 const GIANT_IDX: u64 = 17;
 
@@ -1059,7 +1172,7 @@ fn cli_case(rep: &mut Report, drv: &mut Model, bin: &str, scratch: &std::path::P
         "valid script"
     };
     rep.hist("cli situation", format!("{} / {}", c.cmd, c.situation));
-    rep.class(format!("cli|{}|{}|{}|{}", c.cmd, c.situation, why, c.directory));
+    rep.class(format!("cli|{}|{}|{}|{}|entry depth {}", c.cmd, c.situation, why, c.directory, if c.cmd == "run" { wanted_fn.matches('.').count() } else { 0 }));
     let entry_runs = stdout.matches("<<ENTRY>>").count();
     let witness = json!({"case": cj, "exit": code, "stdout": stdout.chars().take(1500).collect::<String>(), "expected": if must_fail {"failure"} else {"success"}, "why": why,
         "blocks": tests.len(), "rejecting_blocks": tests.iter().filter(|(_, t)| !t.accept).count()});
@@ -1076,6 +1189,26 @@ fn cli_case(rep: &mut Report, drv: &mut Model, bin: &str, scratch: &std::path::P
             witness.clone(),
         ),
         _ => {}
+    }
+    // functions of the script other than the planted entry print a T-marker of their own: the one
+    // that `run` was asked for (when it is one of them) runs once on success, every other never
+    let all_fns: Vec<(String, &FnDecl)> =
+        c.case.mods.iter().flat_map(|m| m.fns().into_iter().map(move |f| (m.key(&f.name), f))).collect();
+    let fn_count = |id: u32| stdout.matches(&format!("<<T{id}>>")).count();
+    let mut real_entries: Vec<String> = vec![];
+    for (k, f) in &all_fns {
+        let n = fn_count(f.id);
+        let want = if c.cmd == "run" && !must_fail && *k == format!("pkg.{wanted_fn}") { 1 } else { 0 };
+        for _ in 0..n {
+            real_entries.push(k.clone());
+        }
+        if n != want {
+            rep.violation(
+                &format!("roto {} {wanted_fn}: the function {k} ran {n} times, expected {want}", c.cmd),
+                &format!("cli {}: a function that is not the entry ran, or the entry ran {n} times", c.cmd),
+                witness.clone(),
+            );
+        }
     }
     let want_entry = if c.cmd == "run" && !must_fail { 1 } else { 0 };
     // a generated function that happens to be the entry prints a T-marker, not ENTRY
@@ -1148,7 +1281,15 @@ fn cli_case(rep: &mut Report, drv: &mut Model, bin: &str, scratch: &std::path::P
         let events: Vec<&str> = w.collect();
         let m_entry = events.iter().filter(|e| e.starts_with("E:")).count();
         let m_tests: Vec<String> = events.iter().filter_map(|e| e.strip_prefix("T:")).map(unhex).collect();
-        let model_entry_ok = if entry_is_planted || m_entry == 0 { m_entry == entry_runs } else { true };
+        // which functions were called as the entry: the planted one prints ENTRY, the others their marker
+        let mut m_keys: Vec<String> = events.iter().filter_map(|e| e.strip_prefix("E:")).map(unhex).collect();
+        m_keys.sort();
+        let mut r_keys = real_entries.clone();
+        for _ in 0..entry_runs {
+            r_keys.push(format!("pkg.{}", c.entry_name));
+        }
+        r_keys.sort();
+        let model_entry_ok = (if entry_is_planted || m_entry == 0 { m_entry == entry_runs } else { true }) && m_keys == r_keys;
         if mcode != real_code || !model_entry_ok || (c.cmd == "test" && m_tests != real_tests) {
             rep.mismatch(
                 "the roto binary differs from the generated model of cli/cli_inner",
@@ -1340,7 +1481,20 @@ fn main() {
             let mut drv = Model::spawn();
             for idx in from..from + n {
                 println!("START {idx}");
-                api_case(&mut rep, &mut drv, seed, idx);
+                // a panic of the runner (an `unwrap` in get_tests, …) is caught here, so that the
+                // findings of the other cases of the batch are kept; aborts and traps still end
+                // the process and are reported by the parent
+                let r = std::panic::catch_unwind(std::panic::AssertUnwindSafe(|| api_case(&mut rep, &mut drv, seed, idx)));
+                if let Err(e) = r {
+                    let msg = e.downcast_ref::<String>().cloned().or_else(|| e.downcast_ref::<&str>().map(|s| s.to_string())).unwrap_or_default();
+                    let case = api_case_for(seed, idx);
+                    take_log();
+                    rep.violation(
+                        "process died (trap/abort/hang) while compiling or running the tests of a generated script",
+                        "test runner crash",
+                        json!({"part": "api", "seed": seed, "index": idx, "case": case_json(&case, false), "ended": format!("panic: {}", msg.chars().take(300).collect::<String>())}),
+                    );
+                }
             }
         }
         Some("replay") => {
